@@ -1090,6 +1090,9 @@ class CallMixin(object):
             return st, src
         if src.kind == "pytuple":
             return st, src
+        if src.kind == "ref" and src.cls is not None and src.cls not in CONTAINER_CLASSES:
+            # iter(obj) == obj.__iter__()  (abstract contract or real method)
+            return self.call_method(st, acc, src, "__iter__", [], {}, node)
         raise Undecided("iter(%r)" % (src,))
 
     def bi_reversed(self, st, acc, args, kwargs, node):
@@ -1396,6 +1399,26 @@ class CallMixin(object):
                 j = u.fresh_int("j")
                 st.assume(z3.ForAll([j], z3.Implies(z3.And(0 <= j, j < res), el[j] != item.z)))
                 return st, self.mk_int(res)
+            if name == "remove":
+                # removes the first occurrence (ValueError when absent); the rest keeps its relative order:
+                # modelled as a new content of length-1 all of whose elements come from the old content
+                item = self.box(st, args[0])
+                n = self.heap_array(st, "$len")[r]
+                old_el = self.heap_array(st, "$at")[r]
+                k = u.fresh_int("k")
+                j = u.fresh_int("j")
+                found = z3.Exists([k], z3.And(0 <= k, k < n, old_el[k] == item.z))
+                bad = st.copy()
+                bad.assume(z3.Not(found))
+                acc.raises.append((bad, self.alloc(bad, "ValueError")))
+                st.assume(found)
+                new = u.fresh("removed", u.ElemsSort)
+                st.assume(z3.ForAll([j], z3.Implies(z3.And(0 <= j, j < n - 1),
+                                                    z3.Exists([k], z3.And(0 <= k, k < n, new[j] == old_el[k]))),
+                                    patterns=[new[j]]))
+                st.heap["$at"] = z3.Store(st.heap["$at"], r, new)
+                st.heap["$len"] = z3.Store(st.heap["$len"], r, n - 1)
+                return st, self.mk_none()
             if name == "copy":
                 return self.bi_list(st, acc, [recv], {}, node)
             raise Undecided("list.%s" % name)
